@@ -941,7 +941,7 @@ def in_fragment(store, op):
     if t == 'a':        # row-wise lifts: arithmetic with a vector / scalar / 1-d operand
         if n not in ('bin', 'ibin') or op[1] not in ARITH: return False
         a = op[3]
-        if a[0] == 'o': return kind_of(store[a[1]]) in ('v', 'l')
+        if a[0] == 'o': return kind_of(store[a[1]]) in ('v', 'l', 'a')
         return a[0] in ('s', 'i', 'n0', 'sb', 'l', 'n', 'bl', 'bn')
     if t == 'l':        # logical vector with a logical vector
         if n not in ('bin', 'ibin') or op[1] not in ('add', 'mul', 'and', 'xor', 'or'): return False
